@@ -147,6 +147,9 @@ func (d *driver) schedule() {
 	n := len(d.handles)
 	for hi := 1; hi <= n; hi++ {
 		d.scheduleHandle(hi)
+		if !f.asym { // Handle.Public() of a symmetric keyset fails: nothing may reach the client
+			d.runStep(jStep{Do: "public", H: hi})
+		}
 		if f.asym && !d.handles[hi-1].pub {
 			before := len(d.handles)
 			d.runStep(jStep{Do: "public", H: hi})
